@@ -582,7 +582,7 @@ def _curve_unit(curve) -> dict:
     return g
 
 
-def geometry(e) -> dict:
+def geometry(e, assemble: bool = True) -> dict:
     """Output geometry of an entity: its units (faces / operations / curves) and, for anything a Mesh accepts,
     the number of vertices and edges after assembling."""
     import classy_blocks as cb
@@ -601,7 +601,7 @@ def geometry(e) -> dict:
         units = [_curve_unit(e)]
     elif hasattr(e, "operations"):
         units = [_op_unit(o) for o in e.operations]
-    if hasattr(e, "operations") or isinstance(e, cb.Operation):
+    if assemble and (hasattr(e, "operations") or isinstance(e, cb.Operation)):
         try:
             mesh = cb.Mesh()
             mesh.add(e)
@@ -687,13 +687,35 @@ def projection_probe(target, other) -> List[dict]:
 
 
 # =========================================================================== applying the steps to a real object
-def apply_steps(e, steps: List[dict], mode: str) -> Tuple[List[Optional[List[float]]], List[str]]:
-    """Applies the steps; returns the centre observed before each step (method mode) and the names of the
-    caller-owned argument arrays that were modified by the library."""
+def apply_steps(e, steps: List[dict], mode: str, times: int = 1):
+    """Applies the steps (`times` times; a list is then the SAME list object applied again); returns the centre
+    observed before each call, the names of caller-owned arguments that were modified by the library, and the steps
+    with aliased arguments resolved to the values they had at the time of the call.
+
+    A step may name one of the entity's own points instead of giving a value (`alias_d` for a displacement,
+    `alias_o` for an origin): the argument then IS the position array of that point."""
     import numpy as np
 
     centers: List[Optional[List[float]]] = []
     mutated: List[str] = []
+    own_points = _points_of(e)
+
+    def alias(idx):
+        if not own_points:  # an entity without Point parts (a bare point-list curve): nothing of its own to alias
+            return np.array([1.0, -2.0, 0.5])
+        return own_points[idx % len(own_points)].position
+
+    def exact(arr) -> List[str]:
+        return [str(Fr(float(c))) for c in arr]
+
+    resolved = []
+    for s in steps:
+        r = {k: v for k, v in s.items() if not k.startswith("alias")}
+        if "alias_d" in s:
+            r["d"] = exact(alias(s["alias_d"]))
+        if "alias_o" in s:
+            r["o"] = exact(alias(s["alias_o"]))
+        resolved.append(r)
 
     def observe_center():
         try:
@@ -705,49 +727,64 @@ def apply_steps(e, steps: List[dict], mode: str) -> Tuple[List[Optional[List[flo
         except Exception:
             return None
 
+    def same(a, b) -> bool:
+        if isinstance(a, np.ndarray) or isinstance(b, np.ndarray):
+            return a is not None and b is not None and np.array_equal(a, b)
+        return a is b or a == b
+
     if mode == "list":
-        objs = build_step_objects(steps)
-        snap = [{k: np.copy(v) for k, v in vars(o).items() if isinstance(v, np.ndarray)} for o in objs]
-        centers.append(observe_center())
-        e.transform(objs)
+        objs = build_step_objects(resolved)
+        aliased = set()
+        for i, (s, o) in enumerate(zip(steps, objs)):
+            if "alias_d" in s:
+                o.displacement = alias(s["alias_d"])
+                aliased.add((i, "displacement"))
+            if "alias_o" in s:
+                o.origin = alias(s["alias_o"])
+                aliased.add((i, "origin"))
+        snap = [{k: (np.copy(v) if isinstance(v, np.ndarray) else v) for k, v in vars(o).items()} for o in objs]
+        for _ in range(times):
+            centers.append(observe_center())
+            e.transform(objs)
         for i, (o, sn) in enumerate(zip(objs, snap)):
             for k, v in sn.items():
-                if not np.array_equal(getattr(o, k), v):
-                    mutated.append(f"step{i}.{k}")
-        return centers, mutated
-    for i, s in enumerate(steps):
-        centers.append(observe_center())
-        o = None if s.get("o") is None else np.array(FV(s["o"]))
-        o0 = None if o is None else np.copy(o)
-        if s["k"] == "T":
-            a = np.array(FV(s["d"]))
-            a0 = np.copy(a)
-            e.translate(a)
-        elif s["k"] == "R":
-            a = np.array(FV(s["a"]))
-            a0 = np.copy(a)
-            if o is None:
-                e.rotate(quat_theta(s["w"], s["a"]), a)
+                if (i, k) not in aliased and not same(getattr(o, k), v):
+                    mutated.append(f"step{i}.{k}" + (" (was None)" if v is None else ""))
+        return centers, mutated, resolved * times
+    for _ in range(times):
+        for i, (s0, s) in enumerate(zip(steps, resolved)):
+            centers.append(observe_center())
+            o = None if s.get("o") is None else (alias(s0["alias_o"]) if "alias_o" in s0 else np.array(FV(s["o"])))
+            o0 = None if o is None else np.copy(o)
+            if s["k"] == "T":
+                a = alias(s0["alias_d"]) if "alias_d" in s0 else np.array(FV(s["d"]))
+                a0 = np.copy(a)
+                e.translate(a)
+            elif s["k"] == "R":
+                a = np.array(FV(s["a"]))
+                a0 = np.copy(a)
+                if o is None:
+                    e.rotate(quat_theta(s["w"], s["a"]), a)
+                else:
+                    e.rotate(quat_theta(s["w"], s["a"]), a, o)
+            elif s["k"] == "S":
+                a = a0 = np.zeros(1)
+                if o is None:
+                    e.scale(F(s["r"]))
+                else:
+                    e.scale(F(s["r"]), o)
             else:
-                e.rotate(quat_theta(s["w"], s["a"]), a, o)
-        elif s["k"] == "S":
-            a = a0 = np.zeros(1)
-            if o is None:
-                e.scale(F(s["r"]))
-            else:
-                e.scale(F(s["r"]), o)
-        else:
-            a = np.array(FV(s["n"]))
-            a0 = np.copy(a)
-            if o is None:
-                e.mirror(a)
-            else:
-                e.mirror(a, o)
-        if not np.array_equal(a, a0):
-            mutated.append(f"step{i}.vector")
-        if o is not None and not np.array_equal(o, o0):
-            mutated.append(f"step{i}.origin")
-    return centers, mutated
+                a = np.array(FV(s["n"]))
+                a0 = np.copy(a)
+                if o is None:
+                    e.mirror(a)
+                else:
+                    e.mirror(a, o)
+            if "alias_d" not in s0 and not np.array_equal(a, a0):
+                mutated.append(f"step{i}.vector")
+            if o is not None and "alias_o" not in s0 and not np.array_equal(o, o0):
+                mutated.append(f"step{i}.origin")
+    return centers, mutated, resolved * times
 
 
 ZERO_CENTER_KINDS = ("edge", "angle")  # EdgeData.center is the constant (0,0,0), with a warning
@@ -1359,6 +1396,36 @@ class C09(core.Check):
             steps = gen_steps(rng, rng.choice([1, 2]))
             steps.insert(rng.randrange(len(steps) + 1), {"k": "T", "d": S(rvec(rng))})
             cases.append({"kind": "ent", "ent": spec, "steps": steps, "mode": rng.choice(["method", "list"]), "copy": True, "move": "original"})
+        # Round 4: (a) the same transformation list object applied twice (default origins must be resolved afresh and
+        # the caller's Rotation/Scaling/Mirror objects must stay as they are); (b) arguments that ARE the position
+        # array of one of the entity's own points (displacement, origin)
+        for i in range(10 * mult):
+            fam = ["face", "loft", "curve", "sketch", "shape", "edge", "extrude", "stack", "face", "loft"][i % 10]
+            steps = gen_steps(rng, rng.choice([1, 2]))
+            k = rng.choice("RS")
+            st = next(x for x in iter(lambda: gen_steps(rng, 1, False)[0], None) if x["k"] == k)
+            st["o"] = None
+            steps.insert(rng.randrange(len(steps) + 1), st)
+            cases.append({"kind": "ent", "ent": gen_entity(rng, fam), "steps": steps, "mode": "list" if i % 3 else "method", "copy": rng.random() < 0.2, "times": 2})
+        for i in range(10 * mult):
+            fam = ["face", "loft", "curve", "face", "extrude", "shape", "sketch", "loft", "edge", "point"][i % 10]
+            k = "T" if i % 2 == 0 else rng.choice("RSM")
+            st = next(x for x in iter(lambda: gen_steps(rng, 1, False)[0], None) if x["k"] == k)
+            if k == "T":
+                del st["d"]
+                st["alias_d"] = rng.randrange(8)
+            else:
+                st["o"] = None
+                st["alias_o"] = rng.randrange(8)
+            cases.append({"kind": "ent", "ent": gen_entity(rng, fam), "steps": [st] + gen_steps(rng, rng.choice([0, 1])), "mode": rng.choice(["method", "list"]), "copy": False})
+        # Round 4: analytic curves that have been measured before, scaled through a transformation list (the list
+        # transforms the curve's parts, not the curve: nothing curve.scale() does on the side happens)
+        for ck in ("curve-line", "curve-circle"):
+            for kinds in ("S", "TS", "SR", "MS"):
+                fr = Frame(rng)
+                e = gen_edge(rng, fr.P(0, 0, 0), fr.P(2, Fr(1, 2), 0), ck)
+                steps = [next(x for x in iter(lambda: gen_steps(rng, 1)[0], None) if x["k"] == k) for k in kinds]
+                cases.append({"kind": "ent", "ent": {"t": "curve", **e["c"]}, "steps": steps, "mode": "list", "copy": rng.random() < 0.5})
         # copies without any transformation
         for fam in ("face", "loft", "shape", "sketch", "curve", "edge"):
             for _ in range(2 * mult):
@@ -1399,6 +1466,9 @@ class C09(core.Check):
 
             siblings = [DiscreteCurve(a) for a, _ in owned]
             out: Dict[str, Any] = {"cls": type(ent).__name__, "top": kind_of(ent) if not _is_leaf(ent) else "leaf"}
+            # the entity is used before it is transformed or copied: every lazily computed quantity (curve lengths,
+            # interpolation functions, …) has been asked for once
+            geometry(ent, assemble=False)
             walk = Walk()
             t0 = walk.tokens(ent, True)
             out["tree0"] = enc_tree([(t[0], t[1], len(t[2])) if t[0] == "A" else t for t in t0])
@@ -1421,10 +1491,11 @@ class C09(core.Check):
             other = None if dup is None else (dup if rev else ent)
             out["n_cells"] = walk.n_cells
             try:
-                centers, mutated = apply_steps(target, steps, case["mode"])
+                centers, mutated, eff = apply_steps(target, steps, case["mode"], int(case.get("times", 1)))
             except Exception as e:
                 out["raised"] = f"{type(e).__name__}: {e}"[:300]
                 return out
+            out["steps"] = eff  # what was really applied: aliases resolved, repetitions unrolled
             out["centers"] = centers
             out["mutated"] = mutated
             out["caller_arrays_modified"] = [
@@ -1497,7 +1568,7 @@ class C09(core.Check):
             return [f"c09.prim {enc_step(s, None)} " + " ".join(enc_v(FV(p)) for p in case["pts"])]
         if "raised" in impl:
             return []
-        steps = case["steps"]
+        steps = self._steps(case, impl)
         # oracle centre for kinds without a modelled rule: observed (method mode) or predicted from the first one
         ocs = self._centres_for_model(case, impl)
         mode = ("m" if case["mode"] == "method" else "l") + (("o" if case.get("move") == "original" else "c") if case["copy"] else "")
@@ -1507,6 +1578,11 @@ class C09(core.Check):
             req += " " + " ".join(enc_step(s, oc) for s, oc in zip(steps, ocs))
         return [req]
 
+    @staticmethod
+    def _steps(case: dict, impl: Any) -> List[dict]:
+        """the steps as they were really applied (aliased arguments resolved, repetitions unrolled)"""
+        return impl.get("steps", case["steps"]) if isinstance(impl, dict) else case["steps"]
+
     def _expected_centres(self, case: dict, impl: Any) -> Tuple[List[Optional[List[Fr]]], Aff]:
         """Centre before each step and the total affine map, from the parameters and the twin's centre alone."""
         c0 = impl.get("center0")
@@ -1515,7 +1591,7 @@ class C09(core.Check):
         zero = impl["top"] in ZERO_CENTER_KINDS or (impl["top"] == "leaf" and case["mode"] == "method")
         aff = Aff()
         centres: List[Optional[List[Fr]]] = []
-        for s in case["steps"]:
+        for s in self._steps(case, impl):
             if zero:
                 c = [Fr(0)] * 3
             elif c0 is None:
@@ -1533,7 +1609,7 @@ class C09(core.Check):
             return [None] * len(case["steps"])
         exp, _ = self._expected_centres(case, impl)
         out = []
-        for i, s in enumerate(case["steps"]):
+        for i, s in enumerate(self._steps(case, impl)):
             if not (s["k"] in "RS" and s.get("o") is None):
                 out.append(None)
             elif case["mode"] == "method" and impl["centers"][i] is not None:
@@ -1595,11 +1671,15 @@ class C09(core.Check):
         kinds = "+".join(sorted({s["k"] for s in case["steps"]})) or "none"
         rev_copy = bool(case["copy"]) and case.get("move") == "original"
         via = ("transform" if case["mode"] == "list" else "method") + ((":original-of-a-copy" if rev_copy else ":copy") if case["copy"] else "")
+        if int(case.get("times", 1)) > 1:
+            via += ":applied-twice"
+        if any(k.startswith("alias") for st in case["steps"] for k in st):
+            via += ":argument-is-own-point"
         where = f"{cls}:{kinds}:{via}"
         if "raised" in impl:
             return [{"site": f"{where}:raised", "what": impl["raised"]}]
         for m in impl["mutated"]:
-            out.append({"site": f"{where}:argument-modified", "what": f"caller-owned array {m} was modified in place"})
+            out.append({"site": f"{where}:argument-modified", "what": f"an argument owned by the caller ({m}: array or field of a transformation object) was modified by the library"})
         for m in impl.get("caller_arrays_modified", [])[:1]:
             out.append({"site": f"{cls}:{kinds}:callers-point-array-modified", "what": "the point array the entity was created from (owned by the caller) was modified by transforming the entity", "observed": m["is"], "expected": m["was"]})
         for m in impl.get("siblings_moved", [])[:1]:
@@ -1607,7 +1687,7 @@ class C09(core.Check):
         if impl["aliased"]:
             out.append({"site": f"{cls}:shared-part", "what": f"{impl['aliased']} leaf objects are reachable twice through .parts (moved twice by every transformation)"})
         centres, aff = self._expected_centres(case, impl)
-        if impl.get("center0") is None and any(s["k"] in "RS" and s.get("o") is None for s in case["steps"]):
+        if impl.get("center0") is None and any(s["k"] in "RS" and s.get("o") is None for s in self._steps(case, impl)):
             out.append({"site": f"{cls}:center-not-a-point", "what": "default origin requested but .center is not a point"})
             return out
         if case["mode"] == "method" and impl["top"] != "leaf":
